@@ -278,8 +278,16 @@ func (c *client) SendBatch(ctx context.Context, batch []hrpc.Call) (
 	backoff := backoffStart
 
 	for {
-		rpcByClient, ok := c.findClients(ctx, batch, res)
+		// findClients reports errors by position in batch, which in a
+		// retry round is not the position of the call in res.
+		lookupRes := make([]hrpc.RPCResult, len(batch))
+		rpcByClient, ok := c.findClients(ctx, batch, lookupRes)
 		if !ok {
+			for i, rpc := range batch {
+				if err := lookupRes[i].Error; err != nil {
+					res[rpcToRes[rpc]].Error = err
+				}
+			}
 			return res, false
 		}
 		sendBatchSplitCount.Observe(float64(len(rpcByClient)))
